@@ -140,7 +140,16 @@ func (w *world) content(c map[string]any) *pbv1.QBFTMsg {
 		PreparedValueHash: w.hashBytes(num(c, "pvh")),
 	}
 	if d := obj(c["duty"]); !boolean(d["nil"]) {
-		q.Duty = &pbv1.Duty{Slot: uint64(num(d, "slot")), Type: int32(num(d, "type"))}
+		slot := uint64(num(d, "slot"))
+		switch slot { // the specification's stand-ins for slots with the top bit set
+		case 100000001:
+			slot = 1<<63 + uint64(w.cfg.t0)/12
+		case 100000002:
+			slot = ^uint64(0)
+		case 100000003:
+			slot = 1 << 63
+		}
+		q.Duty = &pbv1.Duty{Slot: slot, Type: int32(num(d, "type"))}
 	}
 	if ext := num(c, "ext"); ext != 0 { // a field this version of the message does not know (number 15)
 		u := protowire.AppendTag(nil, 15, protowire.VarintType)
